@@ -758,6 +758,17 @@ def standin_unroll_dependencies(tier, seed):
 standin_unroll_dependencies.prop = "C06"
 STANDINS.append(standin_unroll_dependencies)
 
+
+def standin_vendor_special_cases(tier, seed):
+    """optimize_for_target_gateset with the vendors' target gatesets on gates they special-case (shared with C07: the compiled circuit means the same)"""
+    from contracts.C07_compile import standin_known_ops as f
+
+    r = f(tier, seed)
+    r["case"] = "vendor-special-cases"
+    return r
+standin_vendor_special_cases.prop = "C06"
+STANDINS.append(standin_vendor_special_cases)
+
 def standin_subcircuit_handling(tier, seed):
     """sub-circuit operations (tagged to be ignored or not, nested, repeated) under deep=False / deep=True: tagged operations are
     found unchanged at the same nesting position, untagged sub-circuits are untouched unless deep is requested, the unitary stays"""
